@@ -305,8 +305,13 @@ func (api *API) mapEncodeMapKVPair(ctx context.Context, key, val reflect.Value, 
 		return "", nil, ierrors.Wrapf(err, "failed to encode map element of type %s", val.Type())
 	}
 
-	//nolint:forcetypeassert // map keys are always strings
-	return k.(string), v, nil
+	// a JSON member name is a string: a key type whose map form is a number, a bool or an object cannot be expressed
+	keyString, ok := k.(string)
+	if !ok {
+		return "", nil, ierrors.Errorf("map key of type %s is written as %T and cannot be a JSON member name", key.Type(), k)
+	}
+
+	return keyString, v, nil
 }
 
 func (api *API) mapEncodeMap(ctx context.Context, value reflect.Value, ts TypeSettings, opts *options) (*orderedmap.OrderedMap, error) {
